@@ -159,4 +159,14 @@ def sohOfServermap (servermap : SetMap) : Int :=
 def serversOfHappiness (sharemap : SetMap) : Int :=
   if sharemap.isEmpty then 0 else sohOfServermap (sharesByServer sharemap)
 
+/-- the uploader's happiness test after a round of allocations (`upload.py`, twice in
+`Tahoe2ServerSelector.get_shareholders`):
+`servers_of_happiness(merge_servers(peer_selector.get_sharemap_of_preexisting_shares(), use_trackers))`.
+`existing` is `PeerSelector.existing_shares` (`server -> set(shnum)`, dict order);
+`get_sharemap_of_preexisting_shares` inverts it with `DictOfSets.add(share, server)` -- the same
+loop as `shares_by_server`, with the roles of the two coordinates swapped; a tracker is
+`(serverid, buckets)`. -/
+def effectiveHappiness (existing : SetMap) (trackers : SetMap) : Int :=
+  serversOfHappiness (mergeServers (sharesByServer existing) trackers)
+
 end Tahoe.Happiness
